@@ -23,7 +23,7 @@ INVALID_SPEC = 'block "IF_DATA" taggedunion {'
 
 def gen_texts(rng, tier):
     texts = []
-    ndocs = 6 if tier == 'quick' else 60
+    ndocs = 6 if tier == 'quick' else 300
     for d in range(ndocs):
         node, text, toks = docs.random_doc(rng, size='tiny', ifdata=rng.choice([None, 'unknown']), a2ml=rng.choice([None, 'simple']))
         step = max(1, len(text) // (250 if tier == 'quick' else 2000))
@@ -43,7 +43,7 @@ def gen_texts(rng, tier):
             else:
                 ch[k] = ' ' + rng.choice(SOUP)
             texts.append(''.join(ch))
-    for _ in range(400 if tier == 'quick' else 20000):
+    for _ in range(400 if tier == 'quick' else 100000):
         n = rng.randrange(1, 25)
         texts.append(' '.join(rng.choice(SOUP) for _ in range(n)) if rng.random() < 0.7 else ''.join(rng.choice(SOUP) for _ in range(n)))
     # the crash shapes found earlier (regressions of fix: commits) and their relatives
@@ -105,14 +105,36 @@ def check(tier, seed):
         b = t.encode('utf-8', 'surrogatepass') if isinstance(t, str) else t
         spec = rng.choice([None, None, VALID_SPEC, INVALID_SPEC])
         cfg_cases.append([b, rng.randrange(2), [spec] if spec else [], rng.choice([0, 0, 1, 2])])
-    for _ in range(300 if tier == 'quick' else 30000):
+    for _ in range(300 if tier == 'quick' else 150000):
         n = rng.choice([0, 1, 2, 3, 5, 8, 16, 40, 200])
         cfg_cases.append([bytes(rng.randrange(256) for _ in range(n)), rng.randrange(2), [], 2])
     clines = [sx.enc(c) for c in cfg_cases]
     cout = fw.run_isolating([impl, 'C03'], clines, single_timeout=60)
+    # --- part 3: documents that live in several files (entry point load(file) with /include), whole and with an include
+    # file truncated at a random point; comment-heavy layouts at the file boundaries
+    from checks import inclib, c16
+    icases = inclib.gen_split_cases(rng, 30 if tier == 'quick' else 1500)
+    for c in list(icases):
+        incs = [p_ for p_ in c['files'] if p_ != c['main'] and isinstance(c['files'][p_], str) and c['files'][p_]]
+        if incs:
+            p_ = rng.choice(sorted(incs))
+            cut = dict(c, files=dict(c['files']))
+            cut['files'][p_] = c['files'][p_][:rng.randrange(len(c['files'][p_]))]
+            icases.append(cut)
+    icases += boundary_comment_cases()
+    ilines = [sx.enc(list(c16.loadinc_line(c))) for c in icases]
+    iout = fw.run_isolating([impl, 'LOADINC'], ilines, single_timeout=60)
+    inclib.cleanup_tmp()
     t_corr = time.time() - t1
 
     failures = []        # (description, replay payload, known key or None)
+    inc_outcomes = {}
+    for c, l, il in zip(icases, iout, ilines):
+        st = 'DIED' if (l is None or l.startswith('DIED')) else sx.pretty(sx.dec(l))[0]
+        inc_outcomes[st] = inc_outcomes.get(st, 0) + 1
+        if st in ('PANIC', 'DIED'):
+            failures.append(('%s in load(file) of a document split into %d files (%s)' % (st, len(c['files']), (l or '')[:40]),
+                             {'kind': 'LOADINC', 'case': il, 'files': {k_: (t_ if isinstance(t_, str) else '') for k_, t_ in c['files'].items()}, 'main': c['main']}, None))
     for i, r in enumerate(res):
         if r.status in ('PANIC', 'DIED'):
             failures.append(('load_from_string %s on %r' % (r.status, texts[i][:60]), {'kind': 'LOAD', 'case': lines[i], 'text': texts[i]}, classify(texts[i])))
@@ -127,12 +149,12 @@ def check(tier, seed):
     for r in res:
         status[r.status] = status.get(r.status, 0) + 1
     v.coverage.update({
-        'evaluations': len(texts) + len(cfg_cases),
+        'evaluations': len(texts) + len(cfg_cases) + len(icases),
         'distinct_nontrivial': len({t for t, r in zip(texts, res) if r.status != 'OK' or r.diags}) + len({bytes(c[0]) for c in cfg_cases}),
         'rule': RULE, 'samples': [texts[5][:200], texts[len(texts) // 2][:200]],
         'traces_validated_against_impl': len(texts) - len(mism) if model_exe else 0,
         'correspondence_mismatches': len(mism), 'oracle_failures': len(failures), 'correspondence_wall_s': round(t_corr, 1),
-        'input_distribution': {'load_from_string_status': status, 'all_entry_points_outcome': outcomes,
+        'input_distribution': {'load_from_string_status': status, 'all_entry_points_outcome': outcomes, 'multi_file_outcome': inc_outcomes,
                                'deepest_nesting_ladder': 200000},
         'trusted_base': ['std::panic::catch_unwind and process exit status as the observation of panics / aborts',
                          'float oracle table, extraction, translators as in C01'],
@@ -160,6 +182,37 @@ def check(tier, seed):
             v.violation('correspondence', {'stage': 'C', 'broken': 'correspondence of tokenizer+parser model with the implementation on malformed input (%d of %d differ)' % (len(mism), len(texts)),
                                            'first_difference': d, 'kind': 'LOAD', 'case': lines[i], 'text': texts[i]}, no_input=True)
     return v.finish('proof')
+
+
+def boundary_comment_cases():
+    """include directives at the three kinds of places where comments are not kept (top level, between the parameters of
+    an element, inside IF_DATA) and at block level, x a comment of either kind at the start / end of the include file and
+    before / behind the directive, x blank lines that make the line numbers of the two files run in either order"""
+    out = []
+    cm = ['', '/* banner */\n', '// banner\n', '/* two\n lines */ ', '/**/']
+    places = {
+        'top': ('ASAP2_VERSION 1 71\n%s/include "x.inc"%s\n',
+                '%s/begin PROJECT p ""\n /begin MODULE m "" /end MODULE\n/end PROJECT%s'),
+        'param': ('ASAP2_VERSION 1 71 /begin PROJECT p "" /begin MODULE m ""\n/begin MEASUREMENT a ""\n%s/include "x.inc"%s\n/end MODULE /end PROJECT',
+                  '%sUBYTE NO_COMPU_METHOD 0 0 0 1\n/end MEASUREMENT%s'),
+        'ifdata': ('ASAP2_VERSION 1 71 /begin PROJECT p "" /begin MODULE m ""\n/begin IF_DATA V\n%s/include "x.inc"%s\n/end IF_DATA /end MODULE /end PROJECT',
+                   '%s1 2 "s" /begin B 3 /end B%s'),
+        'block': ('ASAP2_VERSION 1 71 /begin PROJECT p "" /begin MODULE m ""\n%s/include "x.inc"%s\n/end MODULE /end PROJECT',
+                  '%s/begin MEASUREMENT a "" UBYTE NO_COMPU_METHOD 0 0 0 1 /end MEASUREMENT%s'),
+    }
+    for place, (main_t, inc_t) in sorted(places.items()):
+        for lead in (0, 12):
+            for c_inc_start in cm:
+                for c_other in ('', '/* c */ ', '// c\n'):
+                    for where in range(3):
+                        pre = c_other if where == 0 else ''
+                        post = (' ' + c_other) if where == 1 else ''
+                        tail = ('\n' + c_other) if where == 2 else ''
+                        files = {'main.a2l': '\n' * lead + main_t % (pre, post), 'x.inc': inc_t % (c_inc_start, tail)}
+                        for strict in (True, False):
+                            out.append({'files': files, 'main': 'main.a2l', 'strict': strict, 'kind': 'split',
+                                        'label': 'boundary comment %s lead=%d' % (place, lead)})
+    return out
 
 
 def nesting_depth(text):
